@@ -283,6 +283,7 @@ func runC10(c *core.Ctx, o Options) {
 			c.Check(n == 0, "Y6", "inbound:Logon", "every successful logon path runs the gap check", lf.Pos(), "gap check follows each transition to SuccessfulLogged", fmt.Sprintf("%d logon path(s) skip the gap check", n))
 		}
 	}
+	c.RuleMin = map[string]int{"Y1": 1, "Y2": 1, "Y3": 1, "Y4": 2, "Y5": 1, "Y6": 2}
 	c.MinObl = 8
 }
 
